@@ -3367,6 +3367,40 @@ theorem c15_empty_message_is_a_message :
     clientLoop s.s2c = ([(0, 1), (0, 0), (0, 2)], .closed true) ∧
     (s.streams.map (·.emitted)) = [[1, 0, 2]] := by decide
 
+/-- **liveness for the client, at quiescence**: the service has ended the stream (some request was served, every
+channel closed by its service, no bad message), the client is still there and none of onet's goroutines can
+move — then the client's read loop **has** ended, with the normal close, and **has** been handed, per channel,
+exactly what the service emitted.  Nothing is still on its way, nothing was dropped, for every schedule that
+leads there and all (positive) capacities. -/
+theorem c15_client_has_everything_when_the_service_ended (caps : Caps) (hin : 0 < caps.inCap) (hout : 0 < caps.outCap)
+    (m₀ : CMsg) (sched : List Act) :
+    let s := run .fixed caps (init m₀) sched
+    Quiet caps s → (∃ st ∈ s.streams, st.refused = false) → (∀ st ∈ s.streams, st.chanClosed = true) →
+    s.cGone = false → s.ended = false →
+      (clientLoop s.s2c).2 = .closed true ∧
+      ∀ (k : Nat) st, s.streams[k]? = some st → outqK k (clientLoop s.s2c).1 = st.emitted := by
+  intro s hq hex hcl hc he
+  obtain ⟨hw, _, _, _, _, hcn⟩ := c15_service_ends_stream caps hin hout m₀ sched hq hex hcl
+  have hcn' := (hcn hc).1
+  have hW : WellFramed s := wellFramed_run .fixed caps _ (wellFramed_init m₀) sched
+  obtain ⟨ds, f, h1, h2, h3⟩ := hW.2 hw
+  have hf : f = .closeNormal := by
+    rw [h1] at hcn'
+    rcases List.mem_append.mp hcn' with hm | hm
+    · have := h2 _ hm; simp [Frame.isData] at this
+    · simp only [List.mem_singleton] at hm; exact hm.symm
+  have hend : (clientLoop s.s2c).2 = .closed true := by
+    rw [h1, (clientLoop_closed ds f h2 h3).1, hf]; rfl
+  exact ⟨hend, (c15_client_receives_in_order_and_complete caps m₀ sched).2.2 hc he hend⟩
+
+/-- non-vacuity: such a state is reached (two values, the service closes, everything runs to rest) -/
+example :
+    let s := run .fixed caps10 (init .fresh)
+      [.aStep, .emit 0 0 1, .fStep 0 0, .emit 0 0 2, .fStep 0 0, .svcClose 0, .fStep 0 0, .wOut, .wOut, .wOut, .rStep, .aStep, .stop 0]
+    (∀ a ∈ internal1, step .fixed caps10 s a = none) ∧ s.cGone = false ∧ s.ended = false ∧
+    (s.streams.map (fun st => (st.refused, st.chanClosed))) = [(false, true)] ∧
+    clientLoop s.s2c = ([(0, 1), (0, 2)], .closed true) := by decide
+
 /-! ### the code regions the model stands for
 Regenerated from /repo's source on every run (`harness/cmd/astfacts` → `OnetVerif/Shapes.lean`): the
 calls that matter for synchronisation and data flow, the lock regions and (for decision logic) the
